@@ -73,8 +73,8 @@ func main() {
 		{path: "cmds/server/config/authorizers/stringy/command.go", points: []string{"*"}},
 		{path: "cmds/server/config/authorizers/stringy/session.go", points: []string{"*"}},
 	}
-	// every other in-scope file: sync imports and go statements are rewritten automatically; channel operations
-	// outside the loader files are not supported (the instrumenter fails loudly)
+	// every other in-scope file: sync imports, go statements and channels the file declares itself are rewritten
+	// automatically; operations on channels that come from elsewhere are not supported (the instrumenter fails loudly)
 	specs = append(specs, autoSpecs(*repo, specs)...)
 	// sync imports and go statements are detected in every file, listed explicitly or not
 	for i := range specs {
@@ -93,6 +93,10 @@ func main() {
 			}
 			return true
 		})
+		// a file that declares channels of its own is rewritten for channels, listed for it or not
+		if usesChans(f) {
+			specs[i].chans = true
+		}
 	}
 	for _, sp := range specs {
 		if err := rewrite(filepath.Join(*repo, sp.path), sp); err != nil {
@@ -163,16 +167,17 @@ func autoSpecs(repo string, specs []fileSpec) []fileSpec {
 			case *ast.GoStmt:
 				sp.gostmt = true
 			case *ast.SendStmt:
-				fail(rel + " has a channel send but is not one of the files rewritten for channels")
-			case *ast.SelectStmt:
-				fail(rel + " has a select statement but is not one of the files rewritten for channels")
+				if !usesChans(f) {
+					fail(rel + " has a channel send but declares no channel that could be rewritten")
+				}
 			}
 			return true
 		})
+		sp.chans = usesChans(f)
 		if pointFiles[rel] {
 			sp.points = []string{"*"}
 		}
-		if sp.sync || sp.gostmt || len(sp.points) > 0 {
+		if sp.sync || sp.gostmt || sp.chans || len(sp.points) > 0 {
 			out = append(out, sp)
 		}
 		return nil
@@ -561,6 +566,18 @@ func (r *rewriter) exprsIn(fl *ast.FuncLit) {
 		r.chanTypesInFieldList(fl.Type.Params)
 		r.chanTypesInFieldList(fl.Type.Results)
 	}
+}
+
+// usesChans reports whether the file declares a channel type or makes a channel.
+func usesChans(f *ast.File) bool {
+	found := false
+	ast.Inspect(f, func(n ast.Node) bool {
+		if _, ok := n.(*ast.ChanType); ok {
+			found = true
+		}
+		return !found
+	})
+	return found
 }
 
 func isMakeChan(e ast.Expr) bool {
